@@ -78,31 +78,3 @@ let rec print_sx b = function
       List.iteri (fun i x -> if i > 0 then Buffer.add_char b ' '; print_sx b x) l;
       Buffer.add_char b ')'
 
-(* ---- commands ---- *)
-let cmd_c02 (x : sx) : sx =
-  match x with
-  | L [m; t] ->
-      let m = nat_of_int (int_of_sx m) and t = table_of_sx t in
-      let r = build_edges t in
-      L [ sx_of_list (sx_of_pair sx_of_z sx_of_z) r.er_edges;
-          sx_of_table (face_edges t m);
-          sx_of_list sx_of_z (n_nodes_per_face t);
-          sx_of_list sx_of_bool r.er_mask ]
-  | _ -> failwith "c02: expected (m table)"
-
-let commands : (string * (sx -> sx)) list = [
-  "c02", cmd_c02;
-]
-
-let () =
-  let cmd = Sys.argv.(1) in
-  let f = try List.assoc cmd commands with Not_found -> (prerr_endline ("unknown command " ^ cmd); exit 2) in
-  let b = Buffer.create 65536 in
-  (try while true do
-    let line = input_line stdin in
-    if String.trim line <> "" then begin
-      Buffer.clear b;
-      (try print_sx b (f (parse line)) with e -> Buffer.add_string b ("(ERR " ^ String.escaped (Printexc.to_string e) ^ ")"));
-      print_endline (Buffer.contents b)
-    end
-  done with End_of_file -> ())
